@@ -105,7 +105,7 @@ def printers():
     ]
 
 
-def run_fragments(ctx, fragments, sources, default_source, key, origin, sample_text):
+def run_fragments(ctx, fragments, sources, default_source, key, origin, sample_text, order=True):
     n_pos = n_unpos = n_ren = 0
     viol = []
     last = {}
@@ -114,6 +114,8 @@ def run_fragments(ctx, fragments, sources, default_source, key, origin, sample_t
         # a fragment without a source of its own belongs to the source of the
         # previous fragment that named one (the documented stream semantics)
         if isinstance(frag[4], str):
+            if frag[4] != current:
+                last.pop(frag[4], None)      # the stream moves to (or back to) this file: order starts afresh
             current = frag[4]
         r = check_fragment(tuple(frag), sources, current)
         if isinstance(r, tuple) and frag[4] is None and len(sources) > 1:
@@ -133,7 +135,7 @@ def run_fragments(ctx, fragments, sources, default_source, key, origin, sample_t
             n_ren += 1
         if r is not None:
             viol.append(r)
-        elif not frag[0].startswith(('//', '/*')):
+        elif order and not frag[0].startswith(('//', '/*')) and (isinstance(frag[4], str) or len(sources) == 1):
             # printing keeps the source order of the tokens and emits each once: a fragment that is
             # right about *a* token of its kind but not about its own one shows as a repeat or a step back
             # (comments are hoisted in front of the node that holds them and are exempt)
@@ -212,6 +214,8 @@ def check_multi(ctx, synth, texts, origin):
         tree, src = parse_source(ctx, synth, path, padded, False)
         if tree is None or src is None or src.res is None:
             return
+        if work.uncertain(src.res, src.err) or work.skip_known(ctx, padded, src.res):
+            return
         trees.append(tree)
         sources[path] = src
     for pname, make in printers()[:4]:
@@ -267,7 +271,7 @@ def check_multi(ctx, synth, texts, origin):
         viol = run_fragments(ctx, frags, sources, None, key + ('sequence',), origin, texts[0])
         viol += run_fragments(ctx, frags2, sources, None, key + ('combined',), origin, texts[0])
         if frags3:
-            viol += run_fragments(ctx, frags3, sources, None, key + ('nested',), origin, texts[0])
+            viol += run_fragments(ctx, frags3, sources, None, key + ('nested',), origin, texts[0], order=False)
         ctx.hit('multi_source_checked')
         seen = set()
         for mech, detail in viol:
